@@ -148,6 +148,10 @@ def worker_main(prop, name, tier, outfile):
         pass
     t0 = time.time()
     from . import core
+    if "SYMX_CROSSCHECK" not in os.environ:
+        # second-solver diff: a sample per obligation in the quick tier, a larger one in the thorough tier
+        core.CROSS["max"] = 30 if tier == "quick" else 300
+        core.CROSS["timeout_ms"] = 3000 if tier == "quick" else 10000
     if os.environ.get("SYMX_DEADLINE"):
         core.DEADLINE[0] = t0 + float(os.environ["SYMX_DEADLINE"])
     obs = {o.name: o for o in load_checks(prop)}
@@ -174,6 +178,12 @@ def worker_main(prop, name, tier, outfile):
             rep.unknown("harness exception: %s: %s" % (type(e).__name__, e), traceback.format_exc()[-2500:])
     for a in core.ABORTS[:20]:
         rep.unknown("path not covered: %s" % a)
+    for i, txt in enumerate(core.STATS.cross_disagree[:3]):
+        os.makedirs(os.path.join(VERIF, ".work"), exist_ok=True)
+        pth = os.path.join(VERIF, ".work", "disagree_%s_%s_%d.smt2" % (prop, name, i))
+        with open(pth, "w") as f:
+            f.write(txt)
+        rep.unknown("SOLVERS DISAGREE: z3 answered unsat, cvc5 answered sat on %s" % pth)
     d = rep.as_dict(core.STATS.as_dict(), time.time() - t0)
     with open(outfile, "w") as f:
         json.dump(d, f)
@@ -395,6 +405,10 @@ def run_property(prop, tier, jobs=None, only=None):
             "solver_s": round(sum(results[o.name].get("stats", {}).get("solver_s", 0) for o in obs), 2),
             "solver_verdicts": {k: sum(results[o.name].get("stats", {}).get(k, 0) for o in obs)
                                 for k in ("unsat", "sat", "unknown", "identity_queries")},
+            "second_solver": dict({k: round(sum(results[o.name].get("stats", {}).get(k, 0) for o in obs), 2)
+                                   for k in ("cross_checked", "cross_agree", "cross_undecided", "cross_disagree", "cross_s")},
+                                  what="cvc5 1.4 re-decides a sample of the queries z3 answered unsat (path pruning and goals); "
+                                       "undecided = cvc5 timeout / unsupported syntax; a disagreement makes the obligation inconclusive"),
             "functions_encoded": functions,
             "bounds": uniq("bounds"),
             "stubs_and_contracts": uniq("stubs"),
